@@ -170,3 +170,32 @@ Definition doc_content (parse : bytes -> option weight) (evs : list event)
   | Some els => Some (el_directed true els, el_nodes els, el_edges els)
   | None => None
   end.
+
+(* ---- executable form of the well-formedness hypotheses of the C14 round-trip
+   theorem (distinct names; every edge admissible for the specs after the edges
+   before it): evaluated on every generated graph, proved sound in
+   Proofs/GraphMLRoundTrip.v (wf_roundtrip_b_sound) *)
+Definition same_pairb (s : specs) (e1 e2 : gedge) : bool :=
+  (bytes_eqb (eu e1) (eu e2) && bytes_eqb (ev e1) (ev e2))
+  || (negb (directed s) && bytes_eqb (eu e1) (ev e2) && bytes_eqb (ev e1) (eu e2)).
+
+Definition admissibleb (s : specs) (names : list bytes) (done : list gedge) (e : gedge) : bool :=
+  existsb (bytes_eqb (eu e)) names && existsb (bytes_eqb (ev e)) names
+  && (selfloops s || negb (bytes_eqb (eu e) (ev e)))
+  && (directed s || negb (bytes_ltb (ev e) (eu e)))
+  && (multi s || forallb (fun e' => negb (same_pairb s e e')) done).
+
+Fixpoint all_admissibleb (s : specs) (names : list bytes) (done es : list gedge) : bool :=
+  match es with
+  | [] => true
+  | e :: t => admissibleb s names done e && all_admissibleb s names (done ++ [e]) t
+  end.
+
+Fixpoint nodupb (l : list bytes) : bool :=
+  match l with
+  | [] => true
+  | x :: t => negb (existsb (bytes_eqb x) t) && nodupb t
+  end.
+
+Definition wf_roundtrip_b (s : specs) (ns : list gnode) (es : list gedge) : bool :=
+  nodupb (map nname ns) && all_admissibleb s (map nname ns) [] es.
